@@ -76,7 +76,7 @@ func verifC21(registry map[uint32]func() bin.Object, sample, n int) {
 func VerifC21_mt() {
 	n := 16
 	if verifrt.Tier() == 1 {
-		n = 20
+		n = 24
 	}
 	verifC21(TypesConstructorMap(), 0, n)
 }
